@@ -128,6 +128,10 @@ SizesAgree == l > 1 => ArraySizesAgree(Forest(Cur))
 NoLeak == l > 1 => Cur.st.stored = Cur.st.reach
 \* C03: between commits no register is written or deleted; zero-address slabs are never written;
 \* after a successful commit a brand-new storage reconstructs the content from the registers alone
+\* C03 / C08 / C15: a slab served from the read cache and not pending in the write set is what the ledger holds under its
+\* identifier (its encoding equals the register): an in-place change of a cached slab that never reached the write set would be
+\* skipped by the next commit and differ from what any other storage decodes from the ledger
+CacheCoherent == l > 1 => Len(Cur.st.stale) = 0
 NoLedgerWrite == l > 1 => Cur.st.calls = lcalls
 TempNeverWritten == l > 1 => \A i \in 1..Len(Cur.calls) : Cur.calls[i].owner # 0
 Durable == (l > 1 /\ Cur.ev = "Commit" /\ Cur.res.class = "ok") =>
